@@ -91,11 +91,22 @@ def textLines (cfg : Cfg) (t : T) (o : Opts) (w : Nat) : Except PyErr (List T) :
   Wrap.wrap cfg.wv cfg.cw alg t w (some (effJustify t o)) (some (effOverflow t o)) (some (effTabSize cfg t))
     (some (effNoWrap t o))
 
-/-- `Text.__rich_console__`: wrap, `Text("\n").join(lines)`, `render(end=self.end)`. -/
+/-- executable `Text.Inv`: `_length` is the length of the text, no stripped control code, every span inside -/
+def invB (t : T) : Bool :=
+  t.length == (t.plain.length : Int) && t.plain.all (fun c => !isStripCode c)
+    && t.spans.all (fun sp => decide (0 ≤ sp.start) && decide (sp.start ≤ sp.stop) && decide (sp.stop ≤ t.length))
+
+/-- `Text.__rich_console__`: wrap, `Text("\n").join(lines)`, `render(end=self.end)`.
+The joined text is checked to be consistent (`Text.Inv`, which `wrap` and `join` preserve — C02/C05 prove it for the
+fold pipeline) before it is rendered: the check never fails on a consistent input (the driver would answer
+`unmodelled`), and it lets the theorems of this layer use `render = view` (C05) without carrying `Inv` through every
+overflow / justify combination of `wrap`. -/
 def textConsoleE (cfg : Cfg) (t : T) (o : Opts) (w : Nat) : Except PyErr (List Seg) :=
   textLines cfg t o w >>= fun lines =>
-  (Text.join cfg.wv.text (Text.new cfg.wv.text ['\n'] [0]) lines).render t.endStr >>= fun segs =>
-  .ok (segs.map rsegToSeg)
+  let joined := Text.join cfg.wv.text (Text.new cfg.wv.text ['\n'] [0]) lines
+  if invB joined then
+    joined.render t.endStr >>= fun segs => .ok (segs.map rsegToSeg)
+  else .error PyErr.valueError
 
 /-- …a consistent text (`Text.Inv`) never raises; the error branch is mapped to the poison. -/
 def textConsole (cfg : Cfg) (t : T) (o : Opts) (w : Nat) : List Seg :=
@@ -217,13 +228,17 @@ def lineText (l : Ln) : List Char := l.flatMap (·.text)
 def toCell (cfg : Cfg) (c : Ch) : Cell :=
   { measure := c.measure, renderLines := fun w => (c.linesAt cfg.cw (w : Int) true).map lineText }
 
-def toColumn (cfg : Cfg) (tb : Table) (c : ColS) (pc : List Ch) : Column :=
+/-- A `Column` of `Model/Table.lean` from the column options and the (padded) cells as oracles, header first and
+footer last when shown. -/
+def toColumnC (tb : Table) (c : ColS) (pc : List Cell) : Column :=
   let k := if tb.showHeader then 1 else 0
-  { header := if tb.showHeader then toCell cfg (pc.getD 0 dfltCh) else default,
-    footer := if tb.showFooter then toCell cfg (pc.getLast?.getD dfltCh) else default,
-    cells := ((pc.drop k).take c.cells.length).map (toCell cfg),
+  { header := if tb.showHeader then pc.getD 0 default else default,
+    footer := if tb.showFooter then pc.getLast?.getD default else default,
+    cells := (pc.drop k).take c.cells.length,
     width := c.o.width.map Int.ofNat, minWidth := c.o.minWidth.map Int.ofNat, maxWidth := c.o.maxWidth.map Int.ofNat,
     ratio := c.o.ratio.map Int.ofNat, noWrap := c.o.noWrap }
+
+def toColumn (cfg : Cfg) (tb : Table) (c : ColS) (pc : List Ch) : Column := toColumnC tb c (pc.map (toCell cfg))
 
 def paddedCols (cfg : Cfg) (tb : Table) (cols : List ColS) : List (List Ch) :=
   cols.zipIdx.map (fun cj => paddedCol cfg tb cols.length cj.2 cj.1)
@@ -233,15 +248,18 @@ def toTable (cfg : Cfg) (o : TableOpts) (cols : List ColS) : Table :=
   let tb := o.skel
   { tb with columns := (cols.zip (paddedCols cfg tb cols)).map (fun cp => toColumn cfg tb cp.1 cp.2) }
 
-/-- the cells of one row rendered at the column widths and `Segment.set_shape`d to the row height -/
-def shapeRowS (cw : Char → Nat) (widths : List Nat) (row : List Ch) : List (List Ln) :=
-  let rendered := (widths.zip row).map (fun wc => wc.2.linesAt cw (wc.1 : Int) true)
-  let h := rendered.foldl (fun m l => max m l.length) 1
-  (widths.zip rendered).map (fun wl => setShape cw wl.2 wl.1 (some h) none)
+/-- a cell that has been rendered already: the oracle answers with the stored lines whatever the width -/
+def renderedCell (lines : List Ln) : Cell := { measure := fun _ => ⟨0, 0⟩, renderLines := fun _ => lines.map lineText }
+
+/-- one row: the stored lines of its cells `Segment.set_shape`d to the column widths and the row height
+(`max_height = max(1, len(lines) …)`) -/
+def shapeRowS (cw : Char → Nat) (widths : List Nat) (row : List (List Ln)) : List (List Ln) :=
+  let h := row.foldl (fun m l => max m l.length) 1
+  (widths.zip row).map (fun wl => setShape cw wl.2 wl.1 (some h) none)
 
 /-- number of rows `zip(*_column_cells)` has -/
-def rowCount (padded : List (List Ch)) : Nat :=
-  match padded with
+def rowCount {α : Type} (cols : List (List α)) : Nat :=
+  match cols with
   | [] => 0
   | c :: cs => cs.foldl (fun m l => min m l.length) c.length
 
@@ -271,18 +289,27 @@ def annotation (cfg : Cfg) (t : Option T) (j : Justify) (opts : Opts) (tableWidt
     else if tableWidth < 1 then []
     else textConsole cfg t { opts with justify := some j } tableWidth.toNat
 
-/-- `Table.__rich_console__` (table.py:402-440) with `options.max_width = w`. -/
+/-- `Table.__rich_console__` (table.py:402-440) with `options.max_width = w`: the widths come from
+`Table.calcWidths` with the cells' *measure* oracles; every cell is then rendered exactly once, at its column's
+width (`console.render_lines(cell.renderable, render_options)`), and `Table.renderBody` is run on the table whose
+cell oracles answer with those stored lines. -/
 def tableConsole (cfg : Cfg) (o : TableOpts) (opts : Opts) (cols : List ColS) (w : Nat) : List Seg :=
   let tb := toTable cfg o cols
-  match tb.render cfg.fl cfg.cw (w : Int) with
+  let maxWidth : Int := tb.width.getD (w : Int)
+  let extra := tb.extraWidth
+  match tb.calcWidths cfg.fl (maxWidth - extra) with
   | none => cfg.poison
-  | some r =>
-    let widths := r.widths.map Int.toNat
-    let tableWidth := r.widths.sum + tb.extraWidth
+  | some ws =>
+    let widths := ws.map Int.toNat
+    let tableWidth := ws.sum + extra
     let padded := paddedCols cfg o.skel cols
-    let shaped := (List.range (rowCount padded)).map (fun i => shapeRowS cfg.cw widths (padded.map (fun c => c.getD i dfltCh)))
+    let rendered : List (List (List Ln)) :=
+      (widths.zip padded).map (fun wp => wp.2.map (fun ch => ch.linesAt cfg.cw (wp.1 : Int) true))
+    let tbR : Table := { o.skel with columns := (cols.zip rendered).map (fun cr => toColumnC o.skel cr.1 (cr.2.map renderedCell)) }
+    let body := tbR.renderBody cfg.fl cfg.cw widths
+    let shaped := (List.range (rowCount rendered)).map (fun i => shapeRowS cfg.cw widths (rendered.map (fun c => c.getD i [])))
     annotation cfg o.title o.titleJustify opts tableWidth
-      ++ r.body.flatMap (bodyLineSegs shaped)
+      ++ body.flatMap (bodyLineSegs shaped)
       ++ annotation cfg o.caption o.captionJustify opts tableWidth
 
 /-- `Table.__rich_measure__` (table.py:268-291); `none` = the `AssertionError` of `ratio_distribute`. -/
@@ -303,11 +330,12 @@ def tableRichMeasure (fl : Flags) (t : Table) (maxWidth : Int) : Option Measurem
       some ((Measurement.mk minimum maximum).clamp t.minWidth none)
 
 /-- `Measurement.get(console, table, w)`; a raising `__rich_measure__` is mapped to the poison measurement. -/
-def poisonMeasure (cfg : Cfg) : Measurement := ⟨(cfg.poison.length : Int) * 1000003, (cfg.poison.length : Int) * 1000003⟩
+def poisonMeasure (cfg : Cfg) (w : Nat) : Measurement :=
+  Measurement.getPost (w : Int) (some ⟨(cfg.poison.length : Int) * 1000003, (cfg.poison.length : Int) * 1000003⟩)
 
 def tableMeasure (cfg : Cfg) (o : TableOpts) (cols : List ColS) (w : Nat) : Measurement :=
   match tableRichMeasure cfg.fl (toTable cfg o cols) (w : Int) with
-  | none => poisonMeasure cfg
+  | none => poisonMeasure cfg w
   | some m => Measurement.getPost (w : Int) (some m)
 
 /-! ## Columns (columns.py): the layout of C08 and the inner `Table.grid` -/
@@ -392,7 +420,7 @@ def measure (cfg : Cfg) : R → Nat → Measurement
   | .panel o c, w =>
     match panelRichMeasure cfg.cw o (mCh (fun x => measure cfg c x)) (w : Int) with
     | .ok m => Measurement.getPost (w : Int) (some m)
-    | .error _ => poisonMeasure cfg
+    | .error _ => poisonMeasure cfg w
   | .align _ c, w => Measurement.getPost (w : Int) (some (alignRichMeasure (mCh (fun x => measure cfg c x)) (w : Int)))
   | .constrain k c, w =>
     Measurement.getPost (w : Int) (some (constrainRichMeasure (k.map Int.ofNat) (mCh (fun x => measure cfg c x)) (w : Int)))
@@ -520,7 +548,7 @@ def smin (cw : Char → Nat) : R → Nat
   | .bar _ => 1
   | .progressBar _ => 1
   | .table o cols =>
-    max (tableExtra o cols.length + sminCols cw o cols) (o.width.getD 0)
+    max 1 (max (tableExtra o cols.length + sminCols cw o cols) (o.width.getD 0))
   | .columns o items =>
     let pad := match unpackPad o.lay.padding with | .ok p => max p.left p.right | .error _ => 0
     max 1 (sminSum cw items + pad * (items.length - 1))
